@@ -123,6 +123,31 @@ CLAIMED = {
               "transport solves; random permutations (incl. ion-before-parent orders) are compared on composition, species enthalpies and all scalar outputs."),
         note="Trusted: as C02; tolerances as C04; electron-dependent conductivity compared above x_e=1e-7, emission when carried by resolved species.",
         ref="§3-C05"),
+    "C11": dict(
+        technique="Coq theorems: every Devoto block regenerated from functions_transport.py equals the first-principles matrix element built from bracket-integral tables (generating function), for any number of species / masses / densities / collision integrals; rigid-sphere Chapman-Cowling ratios from the tables",
+        text=("proof (coefficients full; one recorded finding): the eight upper q blocks q00,q01,q02,q03,q11,q12,q13,q33, the three qhat blocks and the six mass-ratio "
+              "transposes q10,q20,q30,q21,q31,qhat10, as regenerated from the source on every run, are proved equal to sqrt(m_i) sum_l n_i n_l (delta_ij [.,.]' + "
+              "delta_jl [.,.]'') with the brackets from tables derived from the Chapman-Enskog generating function, for all nb, masses > 0, densities and "
+              "collision integrals (termwise field identities after the four Kronecker-delta cases). The tables are anchored inside Coq to Chapman-Cowling's "
+              "single-gas rigid-sphere ratios 205/202, 45/44 and 60989/59512 = 1.02482. q22 and q23: the first-principles statements FAIL on the current tree "
+              "(known finding, two entries); kernel-checked characterisations state the exact excess in the Qbar^(2,2) coefficient and that the code's "
+              "rigid-sphere conductivity ratio is not 45/44. A different deviation, or any other block, is reported as a violation with the matrix entry."),
+        note=("Trusted: Coq kernel; Reals axioms as printed; translator (block pattern); bracket tables derived once with sympy from the generating function of "
+              "DESIGN Appendix A (json + mktables.py committed; reduction of the Boltzmann bracket integrals to that generating function and Devoto's definition "
+              "of q^{mp} from the brackets are literature mathematics); assembly model Transport.v tied by whole-matrix comparison; linear solves and final "
+              "formulae are C12/C14's subject."),
+        ref="§3-C11"),
+    "C12": dict(
+        technique="Coq theorems over R for any number of species: column sums of the first block row, the momentum constraint on every solution, sum D^T = 0, D_ii = 0, diffusion mass identity + tested split / scaling invariances",
+        text=("proof (conservation identities full given exact linear solves; two invariances tested): from the regenerated blocks q00..q03, for every nb, masses > 0 "
+              "and symmetric collision integrals: columns of q01,q02,q03 sum to zero and those of q00 to -S n_j sqrt(m_j); hence every solution of the first block "
+              "row carries -S sum_j n_j sqrt(m_j) x_0j = sum_i rhs_i; therefore the thermal-diffusion coefficients sum to zero, D_ii = 0 and "
+              "sum_i m_i (m_h D_ih - m_k D_ik) = 0 (with the model's right-hand sides and final formulae, tied to Dij / DTi by comparison). NOT proved: "
+              "invariance under splitting a neutral species and under common density scaling of neutral mixtures — tested on prescribed-integral mixtures "
+              "with random split fractions and scale factors, and the identities on equilibrium states of the shipped mixtures."),
+        note=("Trusted: Coq kernel; Reals axioms as printed; translator; Transport.v (block layout, right-hand sides, final formulae) hand-written and tied by "
+              "comparing matrices and outputs under prescribed collision integrals; linear solves not modelled (theorems quantify over solutions)."),
+        ref="§3-C12"),
 }
 
 NOT_YET = {}
